@@ -56,11 +56,12 @@ func (n *Net) event(format string, a ...any) {
 }
 
 type listener struct {
-	net     *Net
-	addr    addr
-	backlog []*End
-	wake    chan struct{}
-	closed  bool
+	net        *Net
+	addr       addr
+	backlog    []*End
+	wake       chan struct{}
+	closed     bool
+	acceptErrs []syscall.Errno // injected: the next accept calls fail with these (EMFILE, ECONNABORTED, ...)
 }
 
 // half is one direction of a connection.
@@ -193,6 +194,9 @@ func (e *End) Write(b []byte) (int, error) {
 	}
 	if h.reset || e.in().reset {
 		return 0, e.opErr("write", syscall.ECONNRESET)
+	}
+	if !e.wdl.IsZero() && !time.Now().Before(e.wdl) {
+		return 0, e.opErr("write", timeoutError{})
 	}
 	if e.peer().closed {
 		return 0, e.opErr("write", syscall.EPIPE)
@@ -385,6 +389,12 @@ func (l *listener) accept() (*End, error) {
 			l.net.mu.Unlock()
 			return nil, &OpError{Op: "accept", Net: l.addr.network, Addr: l.addr, Err: ErrClosed}
 		}
+		if len(l.acceptErrs) > 0 {
+			e := l.acceptErrs[0]
+			l.acceptErrs = l.acceptErrs[1:]
+			l.net.mu.Unlock()
+			return nil, &OpError{Op: "accept", Net: l.addr.network, Addr: l.addr, Err: e}
+		}
 		if len(l.backlog) > 0 {
 			e := l.backlog[0]
 			l.backlog = l.backlog[1:]
@@ -503,4 +513,29 @@ func (n *Net) ManualPending() []*Pair {
 		}
 	}
 	return out
+}
+
+// InjectAcceptError makes the next Accept on address fail once with errno (a transient
+// condition such as EMFILE); reports whether such a listener exists.
+func (n *Net) InjectAcceptError(address string, errno syscall.Errno) bool {
+	n.mu.Lock()
+	defer n.mu.Unlock()
+	l, ok := n.listeners[address]
+	if !ok || l.closed {
+		return false
+	}
+	l.acceptErrs = append(l.acceptErrs, errno)
+	select {
+	case l.wake <- struct{}{}:
+	default:
+	}
+	return true
+}
+
+// Listening reports whether address still has an open listener.
+func (n *Net) Listening(address string) bool {
+	n.mu.Lock()
+	defer n.mu.Unlock()
+	l, ok := n.listeners[address]
+	return ok && !l.closed
 }
